@@ -1,6 +1,7 @@
 package main
 
 import (
+	"math/big"
 	"sync"
 	stded "crypto/ed25519"
 	"math/rand"
@@ -14,6 +15,28 @@ import (
 )
 
 var localZoneMu sync.Mutex
+
+// order of the Ed25519 base point group
+var ed25519L, _ = new(big.Int).SetString("7237005577332262213973186563042994240857116359379907606001950938285454250989", 10)
+
+// scalarPlusL: the little-endian 32-byte string for alpha + k*L, if it still fits 32 bytes
+func scalarPlusL(alpha [32]byte, k int64) ([32]byte, bool) {
+	be := make([]byte, 32)
+	for i := range be {
+		be[i] = alpha[31-i]
+	}
+	v := new(big.Int).SetBytes(be)
+	v.Add(v, new(big.Int).Mul(ed25519L, big.NewInt(k)))
+	var out [32]byte
+	if v.BitLen() > 256 {
+		return out, false
+	}
+	b := v.FillBytes(make([]byte, 32))
+	for i := range out {
+		out[i] = b[31-i]
+	}
+	return out, true
+}
 
 func init() {
 	// EncDec: encrypt a parsed LeaseSet2 to a fresh recipient key, decrypt with the matching key, with a wrong key,
@@ -154,6 +177,15 @@ func init() {
 					o["check_other"] = encrypted_leaseset.VerifyBlindedSignature(b, dest, alpha2)
 				}
 				o["check_random"] = encrypted_leaseset.VerifyBlindedSignature(b, dest, randomAlpha)
+				// other 32-byte strings that denote the same scalar modulo the group order (alpha + k*L): still "another factor"
+				o["check_equivalent"] = false
+				if alpha, aerr := kdf.DeriveBlindingFactor(secret, string(im.Bytes("day"))); aerr == nil {
+					for k := int64(1); k <= 15; k++ {
+						if eq, ok := scalarPlusL(alpha, k); ok && encrypted_leaseset.VerifyBlindedSignature(b, dest, eq) {
+							o["check_equivalent"] = true
+						}
+					}
+				}
 			}
 			outs = append(outs, o)
 		}
